@@ -197,6 +197,14 @@ FIXED += [
       "expected": "SUBROUTINE s\n10 FORMAT(-1P, E12.4, +2P, F8.3)\nEND SUBROUTINE s"}),
 ]
 
+FIXED += [
+    ("C13", "resolved-rejected", "c46375a", "an INCLUDE file that delivers no item (empty, or only comments while comments are ignored) ended the item stream: inside a construct the unit was rejected at the line after the INCLUDE line",
+     {"mode": "raw", "std": "f2003", "key": "resolved-rejected", "ic": True,
+      "main": "program p\n  forall (i = 1:2)\n    include 'void.inc'\n    a(i) = 2\n  end forall\nend program p\n",
+      "files": {"void.inc": "! nothing here\n"},
+      "ref": "program p\n  forall (i = 1:2)\n    a(i) = 2\n  end forall\nend program p\n"}),
+]
+
 OPEN = [
     ("C01", "format-c1002-node-not-reproduced", "a scale factor directly followed by a data edit descriptor ('1p e12.4') is held in a Format_Item_C1002 node but printed with a comma ('1P, E12.4'), so the re-parsed tree has two list items instead: the tree is not structurally identical after the round trip (the comma is asserted by test_format_specification_r1002.py)",
      {"mode": "source", "std": "f2003", "ic": True, "text": "subroutine s\n10 format (1p e12.4, i3)\nend subroutine s\n"}),
